@@ -567,7 +567,19 @@ def run(repo: Repo, R: Report) -> None:
         d = dotted_name(e)
         if d == (f"self.{shared_map}" if cls_name == TRANSPORT else f"self.{sub_map}"):
             return True
-        return fn is not None and isinstance(e, ast.Name) and prov[cls_name].kind(e, fn)[0] == K_MAP
+        return fn is not None and isinstance(e, ast.Name) and prov[cls_name].kind(e, fn)[0] == K_MAP and not map_copy(e, cls_name, fn)
+
+    def map_copy(e: ast.AST, cls_name: str, fn: ast.AST, depth: int = 0) -> bool:
+        """*e* is a private copy of the map made in one C-level call (`<map>.copy()`, `dict(<map>)`) or a local every
+        binding of which is one: walking it or storing into it does not touch the map shared with publishers (the
+        entries it holds are still the shared (deque, lock) pairs - Prov keeps following them)."""
+        if isinstance(e, ast.Call):
+            return prov[cls_name].kind(e, fn)[0] == K_MAP  # kind() gives K_MAP to a call only for those two forms
+        if isinstance(e, ast.Name) and depth < 3:
+            vals = _assigned(fn, e.id)
+            n_bind = sum(1 for x in ast.walk(fn) if (isinstance(x, ast.Name) and x.id == e.id and isinstance(x.ctx, (ast.Store, ast.Del))) or (isinstance(x, ast.arg) and x.arg == e.id))
+            return bool(vals) and len(vals) == n_bind and all(map_copy(v, cls_name, fn, depth + 1) for v in vals)
+        return False
 
     # (queue, lock) pairs taken out of the map, found by provenance (direct, through locals, helpers, caches)
     deque_bindings: List[Tuple[str, ast.AST, str, str, Optional[str]]] = []  # (qualname, func, qvar, lockvar, channelvar)
